@@ -216,14 +216,14 @@ func storeSlashingProtection(ctx context.Context, protection *SlashingProtection
 		}
 		// We take the absolute highest source epoch and target epoch across all provided attestations.
 		for _, attestation := range protection.Data[i].SignedAttestations {
-			sourceEpoch, err := strconv.ParseInt(attestation.SourceEpoch, 10, 64)
+			sourceEpoch, err := parseSlashingProtectionNumber(attestation.SourceEpoch)
 			if err != nil {
 				return errors.Wrap(err, "invalid attestation source epoch")
 			}
 			if sourceEpoch > keyProtection.HighestAttestedSourceEpoch {
 				keyProtection.HighestAttestedSourceEpoch = sourceEpoch
 			}
-			targetEpoch, err := strconv.ParseInt(attestation.TargetEpoch, 10, 64)
+			targetEpoch, err := parseSlashingProtectionNumber(attestation.TargetEpoch)
 			if err != nil {
 				return errors.Wrap(err, "invalid attestation target epoch")
 			}
@@ -233,7 +233,7 @@ func storeSlashingProtection(ctx context.Context, protection *SlashingProtection
 		}
 		// We take the absolute highest slot across all provided proposals.
 		for _, proposal := range protection.Data[i].SignedBlocks {
-			slot, err := strconv.ParseInt(proposal.Slot, 10, 64)
+			slot, err := parseSlashingProtectionNumber(proposal.Slot)
 			if err != nil {
 				return errors.Wrap(err, "invalid proposal slot")
 			}
@@ -242,23 +242,40 @@ func storeSlashingProtection(ctx context.Context, protection *SlashingProtection
 			}
 		}
 
-		existingKeyProtection, exists := existingProtection[key]
-		if exists {
-			// We already have an entry; only add this if it contains newer data.
-			if existingKeyProtection.HighestAttestedSourceEpoch <= keyProtection.HighestAttestedSourceEpoch &&
-				existingKeyProtection.HighestAttestedTargetEpoch <= keyProtection.HighestAttestedTargetEpoch &&
-				existingKeyProtection.HighestProposedSlot <= keyProtection.HighestProposedSlot {
-				protectionMap[key] = keyProtection
-			} else {
-				fmt.Fprintf(os.Stdout, "Existing entry for public key %#x contains newer data; not importing\n", key)
+		// Merge with any earlier entry for the same key in this file and with the existing record,
+		// field by field, so that an import never lowers a value.
+		for _, other := range []*rules.SlashingProtection{protectionMap[key], existingProtection[key]} {
+			if other == nil {
+				continue
 			}
-		} else {
-			protectionMap[key] = keyProtection
+			if other.HighestAttestedSourceEpoch > keyProtection.HighestAttestedSourceEpoch {
+				keyProtection.HighestAttestedSourceEpoch = other.HighestAttestedSourceEpoch
+			}
+			if other.HighestAttestedTargetEpoch > keyProtection.HighestAttestedTargetEpoch {
+				keyProtection.HighestAttestedTargetEpoch = other.HighestAttestedTargetEpoch
+			}
+			if other.HighestProposedSlot > keyProtection.HighestProposedSlot {
+				keyProtection.HighestProposedSlot = other.HighestProposedSlot
+			}
 		}
+		protectionMap[key] = keyProtection
 	}
 	if err := rulesSvc.ImportSlashingProtection(ctx, protectionMap); err != nil {
 		return errors.Wrap(err, "failed to obtain slashing protection")
 	}
 
 	return nil
+}
+
+// parseSlashingProtectionNumber parses an epoch or slot of an interchange file.
+// Values are held as signed 64-bit integers in which negative values mean "nothing signed",
+// so only values in the range [0, 2^63) are acceptable.
+func parseSlashingProtectionNumber(input string) (int64, error) {
+	val, err := strconv.ParseUint(input, 10, 63)
+	if err != nil {
+		return 0, err
+	}
+
+	//nolint:gosec
+	return int64(val), nil
 }
